@@ -37,7 +37,10 @@ CLAIMED = {
             "corresponding face flux (diffusion = div(D grad), central = div(u lin), upwind = div(u upwindMean) incl. boundary corrections and N=1, TVD zero/unit limiter identities).",
             "§6 C05", "UpOK hypothesis: u = 0 wherever an explicitly given upwind-direction field is exactly 0 (automatic for the default)."),
     "C06": (TG, "Constants are annihilated by the diffusion rows (no hypothesis), advect as c*div(u) under central and upwind rows for every sign pattern, have zero TVD correction for every "
-            "limiter; sources are diagonal (phi = gamma/beta cell by cell); the steady uniform state and the cell-local source solve are additionally exercised on the real solver.",
+            "limiter; sources are diagonal (phi = gamma/beta cell by cell). Whole system (C06Sys): the uniform field (k on cells and face ghosts, 0 in the decoupled corners) solves the assembled system of "
+            "any list of diffusion / central / upwind / TVD / transient / scaled terms iff b*k = c on every non-periodic face and the interior rows balance; it is a fixed point of every backward-Euler "
+            "step (any dt, alpha) and, under the C07 hypotheses, the ONLY solution (solvePDE has nothing else to return), for any number of steps; beta*phi = gamma alone is solved cell-wise for any BCs. "
+            "The steady uniform state and the cell-local source solve are additionally exercised on the real solver.",
             "§6 C06", ""),
     "C07": (TG, "Row structure of transient - diffusion(D>=0) + upwind(div-free u) + sink(beta>=0) proved for every grid class, spacing, contrast and dt>0: non-positive off-diagonals, row sum "
             "alpha/dt + beta, rhs (alpha/dt) old; local and global maximum/minimum principle for Dirichlet / no-flux / periodic ghosts (any end-cell sizes), any number of steps, "
@@ -71,7 +74,10 @@ CLAIMED = {
             "Every operator and reflected operator of CellVariable and FaceVariable performs the specified numpy operation in the specified operand order on self.domain, a CellVariable "
             "result carries deepcopy(self.BCs) (table theorems, complete); each operator, copy(), funceval/celleval/faceeval has a checked effect certificate: operands never written, "
             "result freshly allocated and containing no operand storage (soundness: PyFV.C15.pure_of_safe / returns_fresh / fresh_object_contents); copy/arith results get a fresh BC "
-            "object and are independent in both directions for all later histories (C09.copy_independent). Values, BCs of the result, independence and numpy-scalar/array operands are "
+            "object and are independent in both directions for all later histories (C09.copy_independent). Value level (C14Val): the generated table is given a semantics "
+            "(evalRow / Python's forward-then-reflected dispatch) and every method is proved elementwise on interior values for variable, scalar and array operands, reflected sub/div/pow "
+            "reversed, result BCs = those of the left-most variable operand, result ghost layer satisfying those BCs (Robin relation / periodic wrap, by the C03 theorems), copy() equal; "
+            "`logical_ops_not_reflected` records that `scalar & variable` is not defined. Values, BCs of the result, independence and numpy-scalar/array operands are "
             "exercised on the real objects.",
             "§6 C14", "Known finding face-ndarray-operand. User callables passed to funceval/faceeval are assumed not to modify their arguments."),
     "C15": ("Lean 4: soundness of an effect-certificate checker proved once over a heap semantics (any instruction order, any oracle); one `decide +kernel` certificate check per public function, GENERATED from the Python AST on every run (T-eff); dynamic validation of the translator's alias claims",
@@ -84,7 +90,8 @@ CLAIMED = {
     "C16": ("Lean 4 `decide`/∀ theorems over decision tables GENERATED from mesh.py and face.py (translator T-err) and hand-written cascade models, compared exhaustively with the real code",
             "Coordinate and component label tables generated from the property getters/setters equal the documented tables for all 9 classes x 12 labels x get/set; constructor arity "
             "0..7 x both argument forms, term kinds, BoundaryFace coefficient types and all periodic-flag subsets follow the documented exception types; the initial-value shape "
-            "cascade is characterised for ALL ranks and extents (a real ∀ theorem). The real code's outcome is enumerated completely against these tables on every run.",
+            "cascade is characterised for ALL ranks and extents (a real ∀ theorem). The real code's outcome is enumerated completely against these tables on every run; requests made on an "
+            "existing variable (apply_BCs / solvePDE after a radial periodic flag was set) are made three times and must fail every time.",
             "§6 C16", "Right arity with wrong argument types (e.g. Grid1D(3)) is out of the property's scope and modelled as is."),
     "C17": (TG, "Homogeneity of every metric quantity under length scaling (exponent table) and hence of every stencil, divergence, gradient, mean, source, transient, ghost value and boundary row; "
             "a solution of the system in one unit system, multiplied by K, solves the rescaled system, for any number of steps; TVD under an explicit outside-the-threshold-band hypothesis "
